@@ -1,7 +1,7 @@
 """C10: differentiation never writes memory it does not own; VJP functions reusable."""
 from harness import common as C
 
-FILES = ["Containers/VSpace.v", "Containers/VSpaceProof.v", "Array/Index.v", "Engine/Heap.v", "Array/Run01.v",
+FILES = ["Containers/VSpace.v", "Containers/VSpaceProof.v", "Array/Index.v", "Engine/Heap.v", "Engine/HeapPass.v", "Array/Run01.v",
          "Engine/Run10.v", "Props/C10.v"]
 RULE = ("(A) core.add_outgrads folded over random lists of dense contributions (references to 1-3 shared buffers, so the "
         "same array may arrive several times) and sparse ones (untake objects): value, mutable flag and the identity of "
@@ -13,7 +13,7 @@ RULE = ("(A) core.add_outgrads folded over random lists of dense contributions (
         "container arguments receiving dense (+, constructors) and indexed contributions in random order, read-only "
         "cotangent leaves; distinct by (buffers, contributions) / (program, input)")
 TRUST = ["object identity on the implementation is observed with `is`; read-only arrays turn an illegal write into an exception"]
-ASSUMPTIONS = ["rule contract: a derivative rule does not write its arguments (validated for built-in rules by the read-only runs)"]
+ASSUMPTIONS = ["rule contract: a derivative rule does not write its arguments, only allocates, and returns its cotangent, pre-existing buffers or fresh arrays whose values are a function of the cotangent (section hypothesis rule_ok; validated for built-in rules by the read-only runs)"]
 IMPORTS = ("From Coq Require Import List ZArith.\nImport ListNotations.\n"
            "From AG Require Import VSpace Index Heap Run01 Run10.\nLocal Open Scope Z_scope.\n")
 
@@ -74,9 +74,11 @@ def replay(rp):
     return 1
 
 
-TECHNIQUE = "Coq frame theorem on a heap model of add_outgrads (buffer identities, all branches, arbitrary aliasing) + correspondence of value/flag/identity with core.add_outgrads + read-only/repeated-call programs"
+TECHNIQUE = "Coq frame theorem on a heap model of add_outgrads (buffer identities, all branches, arbitrary aliasing); refinement theorem for the whole backward pass (in-place accumulation = pure accumulation, pre-existing memory unchanged, a repeated call answers as the only call) + correspondence of value/flag/identity with core.add_outgrads + read-only/repeated-call programs"
 DESIGN_REF = "DESIGN.md 4.10"
 LEVEL_TEXT = ("Proved: accumulation of any list of aliased dense and sparse contributions leaves every pre-existing buffer unchanged; "
-              "owned values are freshly allocated. Purity of VJP/JVP functions and whole-pass ownership: implementation runs with "
-              "read-only memory, permuted repeated calls and snapshots.")
+              "owned values are freshly allocated. Proved for the whole backward pass over the heap model, for every graph, order and rule family "
+              "under the rule contract (a rule only allocates and refers to its cotangent, pre-existing buffers or what it allocated): "
+              "same result as the pure pass, pre-existing memory unchanged, a second call answers as if it were the only call. "
+              "On the implementation: runs with read-only memory, permuted repeated calls and snapshots.")
 LEVEL_NOTE = "Trusted: Coq kernel; rule contract (rules do not write their arguments) as stated assumption; no axioms."
